@@ -11,8 +11,9 @@
 //   operator / leaf text (identifier, literal spelling, string/char value) and its children; types with their
 //   qualifiers (as a sorted set), pointers (and pointer qualifiers), reference flag, array extents and bit field.  Strings are written
 //   length-prefixed (<n>:<bytes>) so that the serialisation is unambiguous.
-//   Parser objects: see parseAndPrint().  Before a request is processed its id is written to the file named by
-//   $W_PRINT_CUR so that the driver can attribute a sanitizer abort to the request in progress.
+//   Parser objects: see parseAndPrint().  Before every phase of a request (parse0, print0, parse1, print1) the line
+//   "<id> <phase>" is written to the file named by $W_PRINT_CUR so that the driver can attribute a sanitizer abort to
+//   the request and phase in progress.
 #include <algorithm>
 #include <cstdio>
 #include <cstdlib>
@@ -410,10 +411,21 @@ struct Parsed {
 static bool freshParsers = false;
 static parser_t *sharedParser = NULL;
 
-static Parsed parseAndPrint(const std::string &src) {
+static const char *curFile = NULL;
+static std::string curId;
+
+// side file: "<request id> <phase>"; phase in parse0, print0, parse1, print1 (0 = the request's source, 1 = P1)
+static void logPhase(const char *phase) {
+  if (!curFile) return;
+  std::ofstream f(curFile, std::ios::trunc);
+  f << curId << ' ' << phase << "\n";
+}
+
+static Parsed parseAndPrint(const std::string &src, const int round) {
   Parsed r;
   r.ok = false;
   parser_t *parser = NULL;
+  logPhase(round ? "parse1" : "parse0");
   try {
     if (freshParsers) {
       parser = new parser_t();
@@ -424,6 +436,7 @@ static Parsed parseAndPrint(const std::string &src) {
     parser->parseSource(src);
     r.ok = parser->succeeded();
     if (r.ok) {
+      logPhase(round ? "print1" : "print0");
       r.printed = parser->toString();
       std::ostringstream o;
       o << "(root";
@@ -451,6 +464,7 @@ int main() {
   occa::io::stderr.setOverride(capture);
   occa::io::stdout.setOverride(capture);
   const char *cur = ::getenv("W_PRINT_CUR");
+  curFile = cur;
   freshParsers = (::getenv("W_PRINT_FRESH") != NULL);
   // OCCA prints some debugging output straight to stdout: keep the protocol channel private
   int outfd = ::dup(1);
@@ -464,15 +478,15 @@ int main() {
     ls >> id >> hsrc;
     if (id.empty()) continue;
     if (id == "quit") break;
-    if (cur) { std::ofstream f(cur, std::ios::trunc); f << id << "\n"; }
+    curId = id;
     const std::string src = hexDecode(hsrc);
     diag.clear();
-    Parsed p0 = parseAndPrint(src);
+    Parsed p0 = parseAndPrint(src, 0);
     Parsed p1;
     p1.ok = false;
     if (p0.ok) {
       diag += "\n@@reparse@@\n";
-      p1 = parseAndPrint(p0.printed);
+      p1 = parseAndPrint(p0.printed, 1);
     }
     std::string a = id + " " + (p0.ok ? "1" : "0") + " " + (p1.ok ? "1" : "0") + " " + hexEncode(p0.printed) + " " +
                     hexEncode(p1.printed) + " " + hexEncode(p0.ser) + " " + hexEncode(p1.ser) + " " +
